@@ -379,6 +379,7 @@ def run(case):
     else:
       inconclusive = True
   shared = False
+  carried = False
   if seq['failure'] is not None:
     inconclusive = True
   for pi, (a, b) in enumerate(zip(seq['phases'], got['phases'])):
@@ -404,7 +405,10 @@ def run(case):
     # call leaves a different trace than a completed one: with faults the record
     # is compared with the sequential one only for its form (it parses), not
     # for equality.
-    faulted = bool(a.get('faults_fired') or b.get('faults_fired'))
+    # The record lives on into the next phase unless the configuration is
+    # cleared in between, and so does the difference.
+    faulted = bool(a.get('faults_fired') or b.get('faults_fired')) or carried
+    carried = faulted and not case['phases'][pi].get('clear_after')
     if faulted:
       try:
         if b['final'] is not None:
